@@ -172,8 +172,10 @@ def run(prog):
     for cs in props:
         start = strip(cs.args[-1])
         later = [pt for bb, pt in slot_stores if bb in ins.cfg.reachable_from(cs.bb)]
+        # ... or the new entry is written first and the resident (read before) is moved on afterwards
+        later = later or [pt for bb, pt in slot_stores if cs.bb in ins.cfg.reachable_from(bb)]
         if not later:
-            errs_d.append("?no slot write after the displacement")
+            errs_d.append("?no slot write before or after the displacement")
             continue
         slot = strip(later[0][2][1])
         if start == slot:
